@@ -14,22 +14,65 @@ fn v(prop: &'static str, key: String, step: usize, detail: String) -> Violation 
     Violation { prop, key, step, detail }
 }
 
-/// Canonical form of a packet for comparing two executions: transaction id replaced by the
-/// transaction's creation index, MAC / CRC values blanked (they depend on the id).
+/// Stable name of a transaction id within one execution: `tx#k` for requests (creation order), `ind#n` for
+/// the n-th indication the client sent; None for ids the client never produced.
+fn id_name(l: &Ledger, id: &Id) -> Option<String> {
+    if let Some(t) = l.tx_any_gen(id) {
+        return Some(format!("tx#{}", t.k));
+    }
+    let mut n = 0usize;
+    for st in &l.steps {
+        if let (Call::SendIndication { .. }, CallResult::OkId(i)) = (&st.call, &st.result) {
+            if i == id {
+                return Some(format!("ind#{}", n));
+            }
+            n += 1;
+        }
+    }
+    None
+}
+
+/// Canonical form of a packet for comparing two executions: a transaction id the client produced is replaced
+/// by its stable name, and everything that depends on the id is blanked (MAC / CRC values, the part of an
+/// XOR-ed IPv6 address that is XOR-ed with the id).
 fn canon_packet(l: &Ledger, b: &[u8]) -> Vec<u8> {
     let Ok(p) = wire::parse(b) else {
+        // not even a TLV structure (truncated, length edited, ...): if it still carries an id the client
+        // produced, only its length, its first eight bytes and the id's stable name are compared (whatever
+        // else it contains may depend on the id)
+        if b.len() >= 20 {
+            let mut id = [0u8; 12];
+            id.copy_from_slice(&b[8..20]);
+            if let Some(name) = id_name(l, &id) {
+                let mut out = b[..8].to_vec();
+                out.extend_from_slice(&(b.len() as u32).to_be_bytes());
+                out.extend_from_slice(&crate::util::hash_str(&name).to_be_bytes());
+                return out;
+            }
+        }
         return b.to_vec();
     };
     let mut out = b.to_vec();
-    if let Some(t) = l.tx_any_gen(&p.txid) {
+    if let Some(name) = id_name(l, &p.txid) {
         let mut id = [0xEEu8; 12];
-        id[..8].copy_from_slice(&(t.k as u64).to_be_bytes());
+        let h = crate::util::hash_str(&name).to_be_bytes();
+        id[..8].copy_from_slice(&h);
         out[8..20].copy_from_slice(&id);
         for a in &p.attrs {
-            if matches!(a.typ, wire::A_MI | wire::A_MI256 | wire::A_FINGERPRINT) {
-                for x in &mut out[a.off + 4..a.off + 4 + a.value.len()] {
-                    *x = 0;
+            let lo = a.off + 4;
+            let hi = lo + a.value.len();
+            match a.typ {
+                wire::A_MI | wire::A_MI256 | wire::A_FINGERPRINT => {
+                    for x in &mut out[lo..hi] {
+                        *x = 0;
+                    }
                 }
+                0x0012 | 0x0016 | wire::A_XOR_MAPPED_ADDRESS if a.value.len() >= 20 => {
+                    for x in &mut out[lo + 8..hi] {
+                        *x = 0;
+                    }
+                }
+                _ => {}
             }
         }
     }
@@ -37,10 +80,7 @@ fn canon_packet(l: &Ledger, b: &[u8]) -> Vec<u8> {
 }
 
 fn canon_id(l: &Ledger, id: &Id) -> String {
-    match l.tx_any_gen(id) {
-        Some(t) => format!("tx#{}", t.k),
-        None => idhex(id),
-    }
+    id_name(l, id).unwrap_or_else(|| idhex(id))
 }
 
 /// Abstract view of one step (§5.1 of DESIGN.md).
@@ -48,7 +88,23 @@ fn abstract_step(l: &Ledger, st: &Step, relax_reason: &BTreeSet<usize>) -> Strin
     let call = match &st.call {
         Call::SendRequest { app, method, attrs, buf_len, .. } => format!("send_request(app{},{:x},{},{})", app, method, attrs, buf_len),
         Call::SendIndication { app, method, attrs, buf_len, .. } => format!("send_indication(app{},{:x},{},{})", app, method, attrs, buf_len),
-        Call::Recv { bytes, .. } => format!("recv({})", crate::crypto::hex(&canon_packet(l, bytes))),
+        Call::Recv { bytes, fault, .. } => {
+            if fault.is_empty() {
+                format!("recv({})", crate::crypto::hex(&canon_packet(l, bytes)))
+            } else {
+                // a buffer damaged in flight may hide id-dependent bytes (MAC, CRC) anywhere in its (edited)
+                // structure: compare its provenance, length, first eight bytes and the stable name of its id
+                let name = if bytes.len() >= 20 {
+                    let mut id = [0u8; 12];
+                    id.copy_from_slice(&bytes[8..20]);
+                    // (an id damaged in flight is nobody's id in either run)
+                    id_name(l, &id).unwrap_or_else(|| "?".to_string())
+                } else {
+                    String::new()
+                };
+                format!("recv[{}]({}B,{},{})", fault, bytes.len(), crate::crypto::hex(&bytes[..bytes.len().min(8)]), name)
+            }
+        }
         Call::Timeout { .. } => "on_timeout".to_string(),
         Call::Restart => "restart".to_string(),
     };
